@@ -94,25 +94,11 @@ func (P *Prog) verifyFunction(fn *ssa.Function, spec *FuncSpec) *Unit {
 			fr.bind[pn] = f
 		}
 	}
-	// refinement of a func-type contract: add its clauses
-	if spec != nil && spec.Refines != "" {
-		tc := P.typeCons[spec.Refines]
-		if tc == nil {
-			vc.specErrors = append(vc.specErrors, fmt.Sprintf("%s: refines unknown type contract %s", name, spec.Refines))
-		} else {
-			for i, pn := range tc.Params {
-				if i < len(fn.Params) {
-					fr.names[pn] = fr.regs[fn.Params[i]]
-				}
+	if spec != nil {
+		for i, pn := range spec.AliasParams {
+			if i < len(fn.Params) {
+				fr.names[pn] = fr.regs[fn.Params[i]]
 			}
-			merged := *spec
-			merged.Requires = append(append([]*Clause{}, tc.Spec.Requires...), spec.Requires...)
-			merged.Ensures = append(append([]*Clause{}, tc.Spec.Ensures...), spec.Ensures...)
-			if len(merged.Returns) == 0 {
-				merged.Returns = tc.Returns
-			}
-			spec = &merged
-			fr.spec = spec
 		}
 	}
 	env := &Env{vc: vc, fr: fr, st: st, old: st, names: fr.names, hash: map[string]Val{}, paramsFirst: true}
@@ -149,8 +135,16 @@ func (P *Prog) verifyFunction(fn *ssa.Function, spec *FuncSpec) *Unit {
 				vc.trusted["free requires of "+name+": "+r.Src] = true
 			}
 		}
+		for _, r := range spec.Captured {
+			r := r
+			g := vc.safeTr(fr, func() string { return env.trBool(r.E) }, r.Src)
+			vc.assume(g)
+		}
 	}
 	fr.entry = st.clone()
+	if spec != nil {
+		vc.smoke(name+"/smoke/entry", spec.Props, "true")
+	}
 	if spec != nil && !spec.Assumed {
 		fr.modCheck = !spec.ModAll
 		if fr.modCheck {
@@ -189,6 +183,7 @@ func (vc *VC) execReturn(fr *Frame, st *State, reach string, vals []Val) {
 		return
 	}
 	vc.ghostPoint(fr, st, reach, "before", "return", 1, "")
+	vc.smoke(fr.oblName(fmt.Sprintf("smoke/return#%d", fr.count("smoke-ret"))), fr.defProps(), reach)
 	names := map[string]Val{}
 	for k, v := range fr.names {
 		names[k] = v
